@@ -48,9 +48,12 @@ def generate(seed, mode):
     w = S('world')
     o = S('ops')
     shape = mode.get('shape', 'dynamic')
-    nRi = w.randint(3, 6)
-    rifaces = _dag(w, nRi, 2)
-    nP = w.randint(2, 4)
+    # swarm knob: one world in twelve is "big" (wide and deep hierarchies, arity up to 5, a larger key pool), so that
+    # nothing silently depends on the small default sizes (dictionary resizes, deep recursion of the walk, long orders)
+    big = h64(seed, 'big-world') % 12 == 0
+    nRi = w.randint(3, 6) if not big else w.randint(7, 11)
+    rifaces = _dag(w, nRi, 2 if not big else 4)
+    nP = w.randint(2, 4) if not big else w.randint(4, 7)
     pifaces = _dag(w, nP, 2)
     ncls = w.randint(1, 3)
     classes = []
@@ -101,12 +104,15 @@ def generate(seed, mode):
         return [o.randrange(pool) for _ in range(ar)]
 
     def arity():
-        return o.choice([0, 1, 1, 1, 2, 2, 3])
+        return o.choice([0, 1, 1, 1, 2, 2, 3]) if not big else o.choice([1, 2, 3, 4, 5])
 
     keypool = []
-    nkeys = w.randint(4, 8)
+    costly = bool(set(mode.get('props') or ['C05']) & {'C05', 'C08'})       # one or more replayed twins per key and probe
+    nkeys = w.randint(4, 8) if (not big or costly) else w.randint(9, 14)
     for _ in range(nkeys):
         ar = w.choice([0, 1, 1, 1, 2, 2, 3]) if shape != 'specdyn' else w.choice([1, 2, 2, 2, 3])
+        if big:
+            ar = w.choice([1, 2, 3, 4, 5])
         objs = w.random() < 0.35
         keypool.append({'req': [w.randrange(nLK) for _ in range(ar)], 'p': w.randrange(nP + 1),
                         'n': w.randrange(3), 'r': w.randrange(nR), 'objs': objs})
@@ -136,7 +142,7 @@ def generate(seed, mode):
             if o.random() < 0.1:
                 ops.append({'op': 'probe', 'k': k})
     else:
-        nops = w.randint(8, 36)
+        nops = w.randint(8, 36) if not big else (w.randint(30, 70) if not costly else w.randint(20, 44))
         wts = {
             'dynamic': dict(reg=22, unreg=8, sub=10, unsub=6, rbases=6, rebuild=3, irebase=4, cdecl=5, odecl=6, ask=26, dropreg=1, rperm=1),
             'specdyn': dict(reg=20, unreg=3, sub=8, unsub=2, rbases=1, rebuild=0, irebase=14, cdecl=10, odecl=10, ask=30, dropreg=0, rperm=0),
@@ -166,7 +172,7 @@ def generate(seed, mode):
                 # a change in registry X itself (its caches are empty afterwards), then a re-basing of one of X's bases, then
                 # the probe with no lookup in between: the first lookup after the re-basing has to notice it
                 x = o.randrange(nR)
-                pair = [{'op': 'reg', 'r': x, 'req': req(3, 64), 'p': o.randrange(nP), 'n': o.randrange(3),
+                pair = [{'op': 'reg', 'r': x, 'req': req(5, 64), 'p': o.randrange(nP), 'n': o.randrange(3),
                          'v': o.randrange(len(vals)), 'k': k, 'fromkey': fromkey(), 'samepn': True},
                         {'op': 'rbases', 'r': o.randrange(nR), 'base_of': x, 'bases': [o.randrange(nR) for _ in range(o.choice([1, 1, 2]))], 'k': k}]
                 if o.random() < 0.5:
@@ -189,7 +195,7 @@ def generate(seed, mode):
                 # caches about changes above must tell the two origins apart
                 x = o.randrange(nR)
                 for j in (0, 1, 0, 1)[:o.choice([2, 3, 4])]:
-                    ops.append({'op': 'reg', 'r': x, 'anc_of': x, 'anc_i': j + o.choice([0, 0, 1]), 'req': req(3, 64), 'p': o.randrange(nP),
+                    ops.append({'op': 'reg', 'r': x, 'anc_of': x, 'anc_i': j + o.choice([0, 0, 1]), 'req': req(5, 64), 'p': o.randrange(nP),
                                 'n': o.randrange(3), 'v': o.randrange(len(vals)), 'k': o.getrandbits(30), 'fromkey': fromkey(), 'samepn': True})
                     ops.append({'op': 'probe', 'k': o.getrandbits(30)})
                 continue
@@ -199,7 +205,7 @@ def generate(seed, mode):
                 kl = 1 if len(keypool) >= 2 else 0
                 if o.random() < 0.7:
                     # something registered in the neighbourhood of the long key, so that the change can alter the answer
-                    ops.append({'op': 'reg', 'r': o.randrange(nR), 'req': req(3, 64), 'p': o.randrange(nP), 'n': o.randrange(3),
+                    ops.append({'op': 'reg', 'r': o.randrange(nR), 'req': req(5, 64), 'p': o.randrange(nP), 'n': o.randrange(3),
                                 'v': o.randrange(len(vals)), 'k': k, 'fromkey': kl, 'samepn': o.random() < 0.8})
                 ops.append({'op': 'ask', 'e': o.choice([0, 1, 5, 6]), 'key': 0, 'k': k, 'exact': True})
                 ops.append({'op': 'ask', 'e': o.randrange(len(ENTRIES)), 'key': kl, 'k': k, 'exact': True})
@@ -217,14 +223,14 @@ def generate(seed, mode):
                             'n': o.randrange(3), 'v': o.randrange(len(vals)), 'k': k})
                 if o.random() < 0.55:
                     # register in the neighbourhood of a key of the pool, so that lookups hit and registries collide on keys
-                    ops[-1].update({'fromkey': fromkey(), 'req': req(3, 64), 'samepn': o.random() < 0.7})
+                    ops[-1].update({'fromkey': fromkey(), 'req': req(5, 64), 'samepn': o.random() < 0.7})
             elif kind == 'unreg':
                 ops.append({'op': 'unreg', 'r': o.randrange(nR), 'sel': o.randrange(64), 'how': o.randrange(4), 'k': k})
             elif kind == 'sub':
                 ops.append({'op': 'sub', 'r': o.randrange(nR), 'req': req(arity(), nSP + 1), 'p': o.randrange(nP + 1) - 1,
                             'v': o.randrange(len(vals)), 'k': k})
                 if o.random() < 0.55:
-                    ops[-1].update({'fromkey': fromkey(), 'req': req(3, 64), 'samepn': o.random() < 0.7})
+                    ops[-1].update({'fromkey': fromkey(), 'req': req(5, 64), 'samepn': o.random() < 0.7})
             elif kind == 'unsub':
                 ops.append({'op': 'unsub', 'r': o.randrange(nR), 'sel': o.randrange(64), 'how': o.randrange(4), 'k': k})
             elif kind == 'rbases':
